@@ -18,7 +18,7 @@ from ..paramspace import decode_vector
 
 SIZES = {"quick": dict(n_synth=60, n_gen=24, steps=60, samples=300,
                        vec_cap=40000),
-         "thorough": dict(n_synth=1500, n_gen=400, steps=200, samples=3000,
+         "thorough": dict(n_synth=6000, n_gen=1600, steps=200, samples=1500,
                           vec_cap=300000)}
 MODES = list(itertools.product([False, True], repeat=3))
 
